@@ -327,12 +327,97 @@ fn boundary_keys<V: Fv>(seed: u64, thorough: bool, heavy: &mut Shards, light: &m
                 }
             }
         }
+        // (c) Gram-Schmidt norm just above / just below the bound 1.17^2 q = 16822.41...: the first must be discarded
+        for &(lo, hi, name) in &[(16822.6f64, 16832.8f64, "gs-just-above"), (16800.0, 16822.2, "gs-just-below")] {
+            let mut f2 = f.clone();
+            let mut g2 = g.clone();
+            let mut found = false;
+            for _ in 0..4000 {
+                let gs = verif::gram_schmidt_norm_squared(&f2, &g2);
+                let fq: Vec<i16> = f2.iter().map(|&x| ((x as i64 % q + q) % q) as i16).collect();
+                if gs > lo && gs < hi && verif::ntt_fft(&fq).iter().all(|&x| x != 0) {
+                    found = true;
+                    break;
+                }
+                // move the norm towards the window by +-1 steps on random coefficients
+                let j = rng.gen_range(0..n);
+                let onf = rng.gen::<bool>();
+                let c = if onf { f2[j] } else { g2[j] };
+                let step: i16 = if gs <= lo { if c >= 0 { 1 } else { -1 } } else if c > 0 { -1 } else if c < 0 { 1 } else { 0 };
+                let nc = c + step;
+                if nc.abs() <= lim - 1 {
+                    if onf { f2[j] = nc } else { g2[j] = nc }
+                }
+            }
+            if found {
+                variants.push((format!("scripted-{}", name), f2, g2));
+            }
+        }
         for (tag, f2, g2) in variants {
             if let Some(maker) = scripted_keygen::<V>(&f2, &g2, seed.wrapping_add(bi as u64)) {
                 let (obs, _) = observe_with::<V>([bi as u8; 32], &tag, maker);
                 heavy.emit(obs.heavy);
                 light.emit(obs.light);
             }
+        }
+    }
+}
+
+/// Valid NTRU keys whose F or G has a coefficient exactly at the edge of the 8-bit range (+127 / -127): from a real key,
+/// (F, G) + k (f, g) for a sparse small k keeps f G - g F = q; k is searched so that the extreme coefficient lands on
+/// the edge and everything stays representable.  (Generated keys hit these edges for about one seed in several
+/// thousand.)  The key object is built with the crate's own `from_b0` (hook) and goes through to_bytes / from_bytes.
+fn edge_valid_keys<V: Fv>(seed: u64, heavy: &mut Shards, light: &mut Shards) {
+    let mut rng = rng_for(seed, &format!("edge-valid-keys-{}", V::N));
+    let n = V::N;
+    let (sk, _) = V::keygen(rng.gen());
+    let b0 = V::sk_b0(&sk);
+    let g: Vec<i32> = b0[0].iter().map(|&x| x as i32).collect();
+    let f: Vec<i32> = b0[1].iter().map(|&x| -(x as i32)).collect();
+    let cg: Vec<i32> = b0[2].iter().map(|&x| x as i32).collect();
+    let cf: Vec<i32> = b0[3].iter().map(|&x| -(x as i32)).collect();
+    let add_shift = |base: &Vec<i32>, p: &Vec<i32>, j: usize, c: i32| -> Vec<i32> {
+        // base + c * x^j * p  (negacyclic)
+        let mut out = base.clone();
+        for i in 0..n {
+            let k = i + j;
+            if k < n { out[k] += c * p[i] } else { out[k - n] -= c * p[i] }
+        }
+        out
+    };
+    let targets: [(&str, bool, i32); 4] = [("G-max-127", true, 127), ("G-min-127", true, -127), ("F-max-127", false, 127), ("F-min-127", false, -127)];
+    for (name, on_g, want) in targets {
+        let mut found = None;
+        'search: for _ in 0..600000 {
+            let nnz = rng.gen_range(1..=4);
+            let mut f2 = cf.clone();
+            let mut g2 = cg.clone();
+            for _ in 0..nnz {
+                let j = rng.gen_range(0..n);
+                let c = *[-2i32, -1, 1, 2].get(rng.gen_range(0..4)).unwrap();
+                f2 = add_shift(&f2, &f, j, c);
+                g2 = add_shift(&g2, &g, j, c);
+            }
+            let (mx, mn) = if on_g { (*g2.iter().max().unwrap(), *g2.iter().min().unwrap()) } else { (*f2.iter().max().unwrap(), *f2.iter().min().unwrap()) };
+            let hit = if want > 0 { mx == 127 && mn >= -127 } else { mn == -127 && mx <= 127 };
+            let others_ok = f2.iter().chain(g2.iter()).all(|&x| x.abs() <= 127);
+            if hit && others_ok {
+                found = Some((f2, g2));
+                break 'search;
+            }
+        }
+        if let Some((f2, g2)) = found {
+            let to16 = |v: &Vec<i32>| v.iter().map(|&x| x as i16).collect::<Vec<i16>>();
+            let neg16 = |v: &Vec<i32>| v.iter().map(|&x| -(x as i16)).collect::<Vec<i16>>();
+            let b = [to16(&g), neg16(&f), to16(&g2), neg16(&f2)];
+            let tag = format!("edge-valid-key-{}", name);
+            let (obs, _) = observe_with::<V>([7u8; 32], &tag, move || {
+                let sk = V::sk_from_b0(b);
+                let pk = V::pk_from_sk(&sk);
+                (sk, pk)
+            });
+            heavy.emit(obs.heavy);
+            light.emit(obs.light);
         }
     }
 }
@@ -352,6 +437,8 @@ pub fn keys(args: &Args) {
     if args.num("--boundary", 1) == 1 {
         boundary_keys::<V512>(seed, args.thorough(), &mut heavy, &mut light);
         boundary_keys::<V1024>(seed, args.thorough(), &mut heavy, &mut light);
+        edge_valid_keys::<V512>(seed, &mut heavy, &mut light);
+        edge_valid_keys::<V1024>(seed, &mut heavy, &mut light);
     }
     println!("heavy {} light {} verify {}", heavy.finish(), light.finish(), verify.finish());
 }
